@@ -211,15 +211,41 @@ def _strip_raise(e: ast.expr) -> ast.expr:
     return e
 
 
+_ROWS_TESTS = ("self._orientation == MO.ROWS", "self.orientation == MO.ROWS")
+_COLS_TESTS = ("self._orientation == MO.COLUMNS", "self.orientation == MO.COLUMNS")
+
+
+class _Specialise(ast.NodeTransformer):
+    """Resolve every conditional on the orientation for one orientation (the conditional may sit anywhere inside the
+    expression: `dims[0 if rows else 1]` and `dims[0] if rows else dims[1]` specialise to the same two expressions)."""
+
+    def __init__(self, rows: bool):
+        self.rows = rows
+        self.hits = 0
+
+    def visit_IfExp(self, node: ast.IfExp):
+        t = u(node.test)
+        neg = False
+        if isinstance(node.test, ast.UnaryOp) and isinstance(node.test.op, ast.Not):
+            t, neg = u(node.test.operand), True
+        t2 = t.replace("!=", "==") if "!=" in t else t
+        flipped = ("!=" in t) != neg
+        if t2 in _ROWS_TESTS or t2 in _COLS_TESTS:
+            self.hits += 1
+            is_rows_test = (t2 in _ROWS_TESTS) != flipped
+            take_body = is_rows_test == self.rows
+            return self.visit(node.body if take_body else node.orelse)
+        return self.generic_visit(node)
+
+
 def _orientation_branches(e: ast.expr):
-    """IfExp nodes on `self._orientation == MO.ROWS` -> [(rows_expr, cols_expr)]"""
-    out = []
-    for n in ast.walk(e):
-        if isinstance(n, ast.IfExp) and u(n.test) in ("self._orientation == MO.ROWS", "self.orientation == MO.ROWS"):
-            out.append((n.body, n.orelse))
-        elif isinstance(n, ast.IfExp) and u(n.test) in ("self._orientation == MO.COLUMNS", "self.orientation == MO.COLUMNS"):
-            out.append((n.orelse, n.body))
-    return out
+    """-> [(expression specialised for ROWS, expression specialised for COLUMNS)] (empty when it does not depend on the orientation)"""
+    import copy as _copy
+
+    sr, sc = _Specialise(True), _Specialise(False)
+    rows_e = sr.visit(_copy.deepcopy(e))
+    cols_e = sc.visit(_copy.deepcopy(e))
+    return [(rows_e, cols_e)] if sr.hits else []
 
 
 def marginal_branches(ctx: Ctx):
